@@ -6,7 +6,7 @@
 From Coq Require Import List Bool Arith ZArith.
 From QV Require Import Base.Mat Base.Zi C03.ModelSamples C03.ModelProbs C03.ModelCollapse C03.ModelResult
      C03.ProofsSamples C03.ProofsProbs C03.ProofsProbsDM C03.ProofsCollapse C03.ProofsCollapseDM
-     C03.ProofsResult C03.ProofsCheck.
+     C03.ProofsResult C03.ProofsCheck C03.ModelCircuit C03.ProofsCircuit.
 Import ListNotations.
 
 (* calculate_probabilities = Born marginal sum_{x : x|qs = b} |psi_x|^2 in the requested order.
@@ -158,3 +158,46 @@ Theorem shots_okb_sound :
   forall cfg w ns sh, shots_okb cfg w ns sh = true -> shots_ok cfg w ns sh.
 Proof. exact shots_okb_sound_thm. Qed.
 Print Assumptions shots_okb_sound.
+
+(* Circuit.add, measurement bookkeeping when gates follow a measurement: after adding a gate on
+   the qubits gq, EVERY previously added non-collapsing measurement that shares a qubit with it
+   has collapse = True and is no longer in circuit.measurements; every other measurement
+   (untouched ones, and those that were already collapsing) is unchanged, the order of
+   circuit.measurements is kept, has_collapse is set iff some measurement was converted or it was
+   set before.  [circ_wf] (no index twice in measurements, all of them non-collapsing) holds for
+   every circuit built by add calls (circuit_bookkeeping_invariant). *)
+Theorem circuit_add_gate_ok :
+  forall st gq, circ_wf st ->
+  exists st', add_op st (AddG gq) = Some st' /\
+    length (k_ms st') = length (k_ms st) /\
+    (forall j, m_qs (nth j (k_ms st') mrec0) = m_qs (nth j (k_ms st) mrec0) /\
+               m_name (nth j (k_ms st') mrec0) = m_name (nth j (k_ms st) mrec0)) /\
+    (forall i, In i (k_meas st) -> touched st gq i = true ->
+               m_coll (nth i (k_ms st') mrec0) = true /\ ~ In i (k_meas st')) /\
+    (forall i, In i (k_meas st) -> touched st gq i = false ->
+               m_coll (nth i (k_ms st') mrec0) = false /\ In i (k_meas st')) /\
+    (forall j, ~ In j (k_meas st) -> m_coll (nth j (k_ms st') mrec0) = m_coll (nth j (k_ms st) mrec0)) /\
+    k_meas st' = filter (fun i => negb (touched st gq i)) (k_meas st) /\
+    k_hc st' = k_hc st || existsb (touched st gq) (k_meas st) /\
+    circ_wf st'.
+Proof. exact add_gate_spec. Qed.
+Print Assumptions circuit_add_gate_ok.
+
+Theorem circuit_add_measurement_ok :
+  forall st qs name c st', circ_wf st -> add_op st (AddM qs name c) = Some st' ->
+  k_ms st' = k_ms st ++ [mkmrec qs (match name with Some s => inr s | None => inl (length (k_ms st)) end) c] /\
+  k_meas st' = (if c then k_meas st else k_meas st ++ [length (k_ms st)]) /\
+  k_hc st' = k_hc st || c /\ circ_wf st'.
+Proof. exact add_measurement_spec. Qed.
+Print Assumptions circuit_add_measurement_ok.
+
+Theorem circuit_bookkeeping_invariant :
+  forall l st', add_ops circ0 l = Some st' -> circ_wf st'.
+Proof. intros l st'. exact (add_ops_wf l circ0 st' circ0_wf). Qed.
+Print Assumptions circuit_bookkeeping_invariant.
+
+(* two registers, then a CNOT touching both: both are converted *)
+Example circuit_add_gate_nonvacuous :
+  add_ops circ0 [AddM [0] (Some 0) false; AddM [1] (Some 1) false; AddM [2] None false; AddG [0; 1]] =
+  Some (mkcirc [mkmrec [0] (inr 0) true; mkmrec [1] (inr 1) true; mkmrec [2] (inl 2) false] [2] true).
+Proof. reflexivity. Qed.
